@@ -1209,11 +1209,31 @@ func (p *pinterp) call(fn *ssa.Function, fr *pframe, x *ssa.Call, depth int) {
 				}
 			case "Reshape":
 				// the header takes the given extents (gorgonia refuses a different element count: not modelled)
+				old := fr.heap.lists[rv.j]
 				fr.heap.lists[rv.j] = nil
 				if len(cc.Args) >= 1 {
 					if a := p.val(fr, cc.Args[len(cc.Args)-1]); a.k == pList && fr.heap.lists[a.i] != nil {
-						fr.heap.lists[rv.j] = append([]pval{}, fr.heap.lists[a.i]...)
-						fr.env[x] = pval{k: pNil}
+						nl := fr.heap.lists[a.i]
+						prod := func(l []pval) (int64, bool) {
+							pr := int64(1)
+							for _, e := range l {
+								if e.k != pInt {
+									return 0, false
+								}
+								pr *= e.i
+							}
+							return pr, true
+						}
+						po, ok1 := prod(old)
+						pn, ok2 := prod(nl)
+						if old != nil && ok1 && ok2 && po != pn {
+							// gorgonia refuses a shape with another element count and leaves the tensor as it was
+							fr.heap.lists[rv.j] = old
+							fr.env[x] = pval{k: pNonNil}
+						} else {
+							fr.heap.lists[rv.j] = append([]pval{}, nl...)
+							fr.env[x] = pval{k: pNil}
+						}
 					}
 				}
 			}
@@ -1277,6 +1297,11 @@ func (p *pinterp) call(fn *ssa.Function, fr *pframe, x *ssa.Call, depth int) {
 			return
 		}
 		switch {
+		case rv.k == pTensor && name == "Clone":
+			// a copy of the input with a header of its own
+			if l, ok := p.shapeList(rv.i); ok {
+				fr.env[x] = pval{k: pShaped, i: rv.i, j: fr.heap.alloc(l).i}
+			}
 		case rv.k == pTensor && name == "Shape":
 			fr.env[x] = pval{k: pShape, i: rv.i}
 		case rv.k == pTensor && name == "Data":
@@ -1404,6 +1429,28 @@ func (p *pinterp) call(fn *ssa.Function, fr *pframe, x *ssa.Call, depth int) {
 	}
 	if fnPkgPath(sc) == pkgTensor && sc.Signature.Recv() == nil {
 		switch sc.Name() {
+		case "Concat":
+			// Concat(axis, t, ts...) refuses an axis outside [0, rank) (dense_matop.go: "Axis is out of bounds")
+			if len(cc.Args) >= 2 {
+				ax, t := p.val(fr, cc.Args[0]), p.val(fr, cc.Args[1])
+				rank, okr := int64(0), false
+				switch t.k {
+				case pTensor:
+					if p.rankOf != nil {
+						rank, okr = p.rankOf(t.i)
+					}
+				case pShaped:
+					if l := fr.heap.lists[t.j]; l != nil {
+						rank, okr = int64(len(l)), true
+					}
+				}
+				if ax.k == pInt && okr && ax.i == -1 {
+					// AllAxes: axis 0 for the shape, then used as an index (shape.go l.340, defaultengine_matop_misc.go)
+					p.panicAt(fn, x, "gorgonia's Concat takes the axis -1 for 'all axes' and then indexes with it")
+				} else if ax.k == pInt && okr && (ax.i < 0 || ax.i >= rank) {
+					fr.tuples[x] = []pval{{k: pNil}, {k: pNonNil}}
+				}
+			}
 		case "Repeat":
 			// Repeat(t, axis, n...) multiplies the extent of the axis by n (every element n times in a row)
 			if len(cc.Args) == 3 {
